@@ -94,7 +94,8 @@ CellCodes(c, r, ac, ar) ==
     (IF ac THEN <<DOLLAR>> ELSE <<>>) \o ColCodes(c) \o (IF ar THEN <<DOLLAR>> ELSE <<>>) \o NatToCodes(r)
 
 IsPlainSheetChar(c) == (c >= 48 /\ c <= 57) \/ (c >= 65 /\ c <= 90) \/ (c >= 97 /\ c <= 122) \/ c = 95
-NeedsQuote(s) == \E i \in 1..Len(s) : ~IsPlainSheetChar(s[i])
+\* Excel quotes a sheet name that contains anything but letters, digits and _ , or that starts with a digit
+NeedsQuote(s) == (\E i \in 1..Len(s) : ~IsPlainSheetChar(s[i])) \/ (Len(s) > 0 /\ IsDigit(s[1]))
 RECURSIVE DoubleQ(_, _)
 DoubleQ(s, q) == IF Len(s) = 0 THEN <<>>
                  ELSE (IF s[1] = q THEN <<q, q>> ELSE <<s[1]>>) \o DoubleQ(Tail(s), q)
